@@ -40,3 +40,9 @@ claim('C20', 'must-precede / dominance rules on the retry and dispatch loops, sp
       'not-done guards, duplicate rejection, monotone ids; C20.c every stream failure arm wakes the request iterator and informs all waiters; '
       'C20.d retry table and helper requests; C20.e collector spawn guards, counter pairing, single delivery',
       'schedule-universal delivery (needs the interleavings themselves), timeouts/backoff, behaviour of gRPC and duet')
+claim('C07', 'required-guard / quantifier-form analysis of validators (dominating atoms of raise sites), must-follow pairing in the router, option-coherence of target gatesets',
+      'C07.a every device validator has gateset, universally quantified qubit and (where applicable) pair/distance rejection and chains to super(); '
+      'C07.b router emits two-qubit ops only under the adjacency test, applies every emitted swap to the mapping, both maps exchanged together after '
+      'the adjacency check; C07.c compile loop keeps exactly what the gateset validates, raises when stuck, stage order and context forwarding; '
+      'C07.d gateset options are used and part of the value',
+      'unitary equivalence of compiled/routed circuits, that decomposers only emit accepted gates, routing optimality')
